@@ -32,6 +32,10 @@ pub struct C20Case {
     /// like on a file system without lock support; files there are never locked by the harness
     #[serde(default)]
     pub nolock_dir: Option<u16>,
+    /// the n-th lstat of the first locked file fails with EIO (interposer): the dedupe command cannot
+    /// tell whether the path is a symlink just before it asks for the lock
+    #[serde(default)]
+    pub lstat_fault: Option<u8>,
 }
 
 fn profile() -> ScenarioProfile {
@@ -50,15 +54,15 @@ fn profile() -> ScenarioProfile {
 }
 
 fn case_strategy() -> BoxedStrategy<C20Case> {
-    (dcase_strategy(profile()), proptest::collection::vec(0u16..u16::MAX, 1..4), prop::bool::weighted(0.1), 0u8..4, prop::bool::weighted(0.35), prop::bool::weighted(0.2), prop::option::weighted(0.2, 0u16..u16::MAX))
-        .prop_map(|(mut d, locked, lock_all, range, read_lock, readonly, nolock_dir)| {
+    (dcase_strategy(profile()), proptest::collection::vec(0u16..u16::MAX, 1..4), prop::bool::weighted(0.1), 0u8..4, prop::bool::weighted(0.35), prop::bool::weighted(0.2), prop::option::weighted(0.2, 0u16..u16::MAX), prop::option::weighted(0.15, 1u8..4))
+        .prop_map(|(mut d, locked, lock_all, range, read_lock, readonly, nolock_dir, lstat_fault)| {
             // access times change when the harness reads files; keep the intention stable
             for p in d.dopts.priority.iter_mut() {
                 if *p % 12 == 6 || *p % 12 == 7 {
                     *p = 0;
                 }
             }
-            C20Case { d, locked, lock_all, range, read_lock, readonly, nolock_dir }
+            C20Case { d, locked, lock_all, range, read_lock, readonly, nolock_dir, lstat_fault }
         })
         .boxed()
 }
@@ -209,6 +213,17 @@ fn judge(c: &C20Case, g: &Grouped, target: &std::path::PathBuf) -> Verdict {
     if let Some(d) = &nolock {
         run = run.env("LD_PRELOAD", SHIM).env("FCV_ROOT", format!("{}:{}", tree.display(), target.display())).env("FCV_NOLOCK_DIR", d).env("RAYON_NUM_THREADS", "1");
     }
+    let mut lstat_faulted = false;
+    if let (Some(n), None, false, Some(first)) = (c.lstat_fault, &nolock, c.readonly, lock_set.iter().next()) {
+        if std::path::Path::new(SHIM).exists() {
+            run = run
+                .env("LD_PRELOAD", SHIM)
+                .env("FCV_ROOT", format!("{}:{}", tree.display(), target.display()))
+                .env("FCV_FAULT", format!("fn=lstat,path={},n={},errno=EIO", String::from_utf8_lossy(first), n))
+                .env("RAYON_NUM_THREADS", "1");
+            lstat_faulted = true;
+        }
+    }
     let before = if c.readonly && std::path::Path::new("/usr/bin/setpriv").exists() {
         use std::os::unix::fs::PermissionsExt;
         for p in &lock_set {
@@ -233,6 +248,9 @@ fn judge(c: &C20Case, g: &Grouped, target: &std::path::PathBuf) -> Verdict {
     if nolock.is_some() {
         sig.push("one-directory-without-lock-support".into());
     }
+    if lstat_faulted {
+        sig.push("lstat-of-a-locked-file-fails".into());
+    }
     let fail = |clause: &str, detail: String| Verdict::Fail { clause: clause.into(), detail: format!("{}\n{}\n{}", cmd, detail, out.brief()), sig: sig.clone() };
     if out.timed_out {
         return Verdict::Inconclusive("timeout".into());
@@ -249,7 +267,8 @@ fn judge(c: &C20Case, g: &Grouped, target: &std::path::PathBuf) -> Verdict {
             if !same {
                 return fail("locked-file-touched", format!("{:?} is locked by another process but was removed/replaced/moved", B(p.clone())));
             }
-        } else if !reflink_unsupported {
+        } else if !reflink_unsupported && !lstat_faulted {
+            // (with a failing lstat fclones may skip the whole group of that file: only "locked files are left alone" is judged then)
             // must be processed as in the lock-free run; a hard link to an identical inode is a no-op in the inventory
             let noop_link = d.op == Op::Link && before.get(p).map(|n| n.nlink > 1).unwrap_or(false);
             if same && !noop_link {
@@ -278,7 +297,7 @@ pub fn check(tier: Tier) -> i32 {
     cleanup_process_scratch();
     ctx.finish(
         "exploration",
-        "proptest-generated dedupe scenarios (hostile file names, hard links, priorities, -n, isolate) x operation (remove, link, link --soft, move, dedupe) x a non-empty subset of the files the command intends to process (learnt from a dry run) locked by the harness with open-file-description write or read locks (whole file or byte ranges) x --no-lock on/off; in a fifth of the cases the locked files are read-only and fclones runs without CAP_DAC_OVERRIDE (setpriv), like an ordinary user who may delete but not open them for writing; in another fifth record locks are refused with EOPNOTSUPP below the directory of one intended file (interposer; a file system without lock support, files there are not locked by the harness, single worker thread). Oracle: without --no-lock every locked file is untouched (same inode, bytes, path) and a warning is logged, every unlocked intended file is processed; with --no-lock all intended files are processed. Non-trivial = at least one locked and one unlocked intended file in the same run (operation other than the unsupported reflink).",
+        "proptest-generated dedupe scenarios (hostile file names, hard links, priorities, -n, isolate) x operation (remove, link, link --soft, move, dedupe) x a non-empty subset of the files the command intends to process (learnt from a dry run) locked by the harness with open-file-description write or read locks (whole file or byte ranges) x --no-lock on/off; in a fifth of the cases the locked files are read-only and fclones runs without CAP_DAC_OVERRIDE (setpriv), like an ordinary user who may delete but not open them for writing; in another fifth record locks are refused with EOPNOTSUPP below the directory of one intended file (interposer; a file system without lock support, files there are not locked by the harness, single worker thread); in 15 % one lstat of a locked file fails with EIO (the locked file must still be left alone). Oracle: without --no-lock every locked file is untouched (same inode, bytes, path) and a warning is logged, every unlocked intended file is processed; with --no-lock all intended files are processed. Non-trivial = at least one locked and one unlocked intended file in the same run (operation other than the unsupported reflink).",
         &["F_OFD_SETLK write/read locks held by the harness conflict with fclones' fcntl(F_SETLK) like a lock of a foreign process", "reflink is unsupported here: for `dedupe` only 'locked files untouched' is checked"],
     )
 }
